@@ -144,8 +144,15 @@ func runJob(p part, job Job, perRunTimeout time.Duration) ([]Result, error) {
 		if timedOut {
 			kind = "hang"
 		}
-		all = append(all, Result{Kind: "run", Index: inflight.Index, Seed: inflight.Seed, Part: job.Part,
-			Viol: []Violation{{Prop: job.Prop, Sig: kind + ":" + crashSite(out.String()), Detail: tail(out.String(), 6000)}}})
+		if strings.Contains(out.String(), "VERIF-MEMORY-BUDGET") {
+			// the generated program blew up the executor's memory budget (e.g. bindings that
+			// nest themselves on every step): the run is skipped and counted, not judged
+			all = append(all, Result{Kind: "run", Index: inflight.Index, Seed: inflight.Seed, Part: job.Part, Trivial: true,
+				Stats: map[string]int{"skipped_memory_budget": 1}})
+		} else {
+			all = append(all, Result{Kind: "run", Index: inflight.Index, Seed: inflight.Seed, Part: job.Part,
+				Viol: []Violation{{Prop: job.Prop, Sig: kind + ":" + crashSite(out.String()), Detail: tail(out.String(), 6000)}}})
+		}
 		next := inflight.Index + 1
 		job.Count = job.From + job.Count - next
 		job.From = next
@@ -279,13 +286,16 @@ func runBatch(prop string, p part, tier string, seedBase uint64, n int, workers 
 	return all, ferr
 }
 
+// tapeTimeout bounds a single replayed run (plus the executor's start-up allowance).
+var tapeTimeout = 30 * time.Second
+
 // runTape replays one tape in a fresh process.
 func runTape(prop string, p part, tier string, seedBase uint64, index int, tape []uint32, trace bool) (*Result, error) {
 	job := Job{Prop: prop, Part: p.name, Tier: tier, Mode: "replay", SeedBase: seedBase, From: index, Count: 1, Tape: tape, Trace: trace, KeepTape: true}
 	if tape == nil {
 		job.Mode = "search"
 	}
-	res, err := runJob(p, job, 120*time.Second)
+	res, err := runJob(p, job, tapeTimeout)
 	if err != nil {
 		return nil, err
 	}
